@@ -220,10 +220,26 @@ class Heap:
                             raise AnalysisError('heap model: regex %s.%s does not fold' % (c, nm))
                     elif isinstance(node, ast.Constant):
                         cv[(c, nm)] = node.value
+                    elif isinstance(node, ast.Call) and norm(node.func) == 'property':
+                        # name = property(fget, fset): read and written through the two functions
+                        parts = list(node.args[:2]) + [None] * (2 - len(node.args[:2]))
+                        for kw_ in node.keywords:
+                            if kw_.arg == 'fget':
+                                parts[0] = kw_.value
+                            if kw_.arg == 'fset':
+                                parts[1] = kw_.value
+                        cv[(c, nm)] = ('property', c, parts[0], parts[1])
                     elif isinstance(node, ast.Call) and norm(node.func) in ('set', 'frozenset') and not node.args:
                         cv[(c, nm)] = set()
                     elif isinstance(node, ast.Set):
                         cv[(c, nm)] = set()
+                    elif isinstance(node, ast.Dict) and node.keys and all(isinstance(k_, ast.Constant) for k_ in node.keys) \
+                            and any(isinstance(v_, ast.Lambda) for v_ in node.values) \
+                            and all(isinstance(v_, (ast.Lambda, ast.Constant)) for v_ in node.values):
+                        # a dispatch table: constant keys, functions written in the class body as values
+                        cv[(c, nm)] = self.new_dict('@classvar_%s_%s' % (c, nm))
+                        self.objs[cv[(c, nm)].name]['entries'].extend(
+                            (k_.value, Closure(v_, {}, None, c) if isinstance(v_, ast.Lambda) else v_.value) for k_, v_ in zip(node.keys, node.values))
                     elif (isinstance(node, ast.Call) and norm(node.func) == 'dict' and not node.args) or (isinstance(node, ast.Dict) and not node.keys):
                         cv[(c, nm)] = self.new_dict('@classvar_%s_%s' % (c, nm))
                     elif (isinstance(node, ast.Call) and norm(node.func) == 'list' and not node.args) or (isinstance(node, ast.List) and not node.elts):
@@ -240,6 +256,13 @@ class Heap:
                             # a class-level dictionary of constants: ONE object for the class and all its instances
                             cv[(c, nm)] = self.new_dict('@classvar_%s_%s' % (c, nm))
                             self.objs[cv[(c, nm)].name]['entries'].extend(val.items())
+                        elif isinstance(val, dict) and all(isinstance(x, (str, int, bytes, tuple, type(None))) for x in val) and all(
+                                isinstance(x, (str, int, bytes, tuple, type(None))) or (isinstance(x, list) and all(isinstance(y, (str, int, bytes)) for y in x))
+                                for x in val.values()):
+                            # ... whose values may be lists of constants (each one list object)
+                            cv[(c, nm)] = self.new_dict('@classvar_%s_%s' % (c, nm))
+                            self.objs[cv[(c, nm)].name]['entries'].extend(
+                                (k_, self.new_list(list(v_)) if isinstance(v_, list) else v_) for k_, v_ in val.items())
                         else:
                             continue
                 return cv[(c, nm)]
@@ -530,6 +553,8 @@ class Interp:
             v = h.getattr(base, e.attr, cls)
             if isinstance(v, Closure) and isinstance(v.node, ast.FunctionDef) and any(norm(d) == 'property' for d in v.node.decorator_list):
                 return self.call(v, [])
+            if isinstance(v, tuple) and len(v) == 4 and v[0] == 'property' and isinstance(base, Ref):
+                return self.call_accessor(v[1], v[2], base, [], e)
             return v
         if isinstance(e, ast.Compare) and len(e.ops) > 1:
             # a < b <= c: the conjunction of the links, left to right with short circuit (operands are evaluated once in Python; the
@@ -574,6 +599,8 @@ class Interp:
                     o = h.objs[r.name]
                     if o['__class__'] == 'dict':
                         res = h.dict_has(r, l)
+                    elif '__contains__' in h.hooks:
+                        res = self.truth(h.hooks['__contains__'](self, [r, l], {}))
                     else:
                         c = h.module.method(o['__class__'], '__contains__')
                         if c is None:
@@ -656,6 +683,11 @@ class Interp:
                     # collections.defaultdict: a read of a missing key stores the factory's product
                     h.dict_set(base, key, self.call_value(fac_, [], e))
                 return h.dict_get(base, key, e.lineno)
+            if isinstance(base, str) and isinstance(key, str):
+                raise Raised('TypeError', h.version, e.lineno)          # string indices must be integers
+            if isinstance(base, Ref) and '__getitem__' in h.hooks and h.objs[base.name]['__class__'] not in ('dict', 'list'):
+                h.version_at_line = e.lineno
+                return h.hooks['__getitem__'](self, [base, key], {'lineno': e.lineno})
             if h.is_list(base) or isinstance(base, (list, tuple)):
                 items = h.items(base) if h.is_list(base) else list(base)
                 if isinstance(key, slice):
@@ -814,6 +846,8 @@ class Interp:
             if fn.id == 'setattr' and len(args) == 3:
                 self.store_attr(args[0], nm_, args[2], None)
                 return None
+            if fn.id == 'hasattr' and o_['__class__'] in ('dict', 'list'):
+                return nm_ in dir(dict if o_['__class__'] == 'dict' else list)      # the builtin containers
             if fn.id == 'hasattr':
                 if ('.' + nm_) in h.hooks:
                     return True          # a method the scenario supplies
@@ -832,6 +866,17 @@ class Interp:
             _ = o_
         if isinstance(fn, ast.Name) and fn.id in ('bool',) and len(args) == 1:
             return self.truth(args[0])
+        if isinstance(fn, ast.Name) and fn.id in ('max', 'min') and fn.id not in env and fn.id not in h.hooks and args and set(kwargs) <= {'default'}:
+            vals = self.seq(args[0]) if len(args) == 1 else list(args)
+            if not vals:
+                if 'default' in kwargs and len(args) == 1:
+                    return kwargs['default']
+                raise Raised('ValueError', h.version, e.lineno)       # max() of an empty sequence
+            if all(isinstance(x, int) and not isinstance(x, bool) for x in vals) or all(isinstance(x, str) for x in vals):
+                return max(vals) if fn.id == 'max' else min(vals)
+            if any(x is None for x in vals) or len({type(x) for x in vals}) > 1 and all(isinstance(x, (int, str)) for x in vals):
+                raise Raised('TypeError', h.version, e.lineno)
+            raise AnalysisError('heap model: %s of %s' % (fn.id, norm(e)[:60]))
         if isinstance(fn, ast.Name) and fn.id in ('set', 'frozenset') and len(args) <= 1 and fn.id not in env:
             items = self.seq(args[0]) if args else []
             if not all(isinstance(x, (str, int, tuple, Key, SStr)) for x in items):
@@ -1066,9 +1111,32 @@ class Interp:
             return r
         raise AnalysisError('heap model: call %s' % norm(e)[:60])
 
-    def store_attr(self, ref, attr, value, cls):
-        """obj.attr = value: through the class's own __setattr__ when it defines one (heap.intercept_setattr), else the plain store"""
+    def call_accessor(self, home_cls, fnode, ref, args, e):
+        """the getter / setter given to property(): a lambda written in the class body, or the name of a method there"""
         h = self.h
+        if isinstance(fnode, ast.Lambda):
+            return self.call(Closure(fnode, {}, None, home_cls), [ref] + list(args))
+        if isinstance(fnode, ast.Name):
+            fn = h.module.method(home_cls, fnode.id)
+            if fn is not None:
+                return self.call(Closure(fn.node, {}, ref, fn.cls), list(args))
+        if fnode is None:
+            raise Raised('AttributeError', h.version, getattr(e, 'lineno', 0))
+        raise AnalysisError('heap model: property accessor %s' % norm(fnode)[:60])
+
+    def store_attr(self, ref, attr, value, cls):
+        """obj.attr = value: through the class's own __setattr__ when it defines one (heap.intercept_setattr), through the setter of a
+        property(fget, fset) of the class, else the plain store"""
+        h = self.h
+        if isinstance(ref, Ref) and h.objs[ref.name]['__class__'] in h.module.classes and not attr.startswith('__'):
+            node, c = h.module.class_const_node(h.objs[ref.name]['__class__'], attr)
+            if isinstance(node, ast.Call) and norm(node.func) == 'property':
+                parts = list(node.args[:2]) + [None] * (2 - len(node.args[:2]))
+                for kw_ in node.keywords:
+                    if kw_.arg == 'fset':
+                        parts[1] = kw_.value
+                self.call_accessor(c, parts[1], ref, [value], None)
+                return
         if getattr(h, 'intercept_setattr', False) and isinstance(ref, Ref) and h.objs[ref.name]['__class__'] in h.module.classes:
             fn = h.module.method(h.objs[ref.name]['__class__'], '__setattr__')
             if fn is not None:
